@@ -203,6 +203,14 @@ func LoadProgram(repo, mirror string) (*Program, error) {
 		}
 	}
 	prog.computeModSets()
+	// the go/types package object (for dynamic type tags of external types)
+	for _, p := range pkgs2 {
+		for path, imp := range p.Imports {
+			if path == "go/types" {
+				goTypesPkg = imp.Types
+			}
+		}
+	}
 	return prog, nil
 }
 
@@ -278,6 +286,9 @@ func implies(a, b bool) bool { return !a || b }
 func iff(a, b bool) bool { return a == b }
 func forall[T any](f func(T) bool) bool { panic(0) }
 func exists[T any](f func(T) bool) bool { panic(0) }
+func forall2[T, U any](f func(T, U) bool) bool { panic(0) }
+func forall3[T, U, V any](f func(T, U, V) bool) bool { panic(0) }
+func exists2[T, U any](f func(T, U) bool) bool { panic(0) }
 func old[T any](x T) T { return x }
 func has[K comparable, V any](m map[K]V, k K) bool { _, ok := m[k]; return ok }
 func keys[K comparable, V any](m map[K]V) map[K]bool { panic(0) }
@@ -285,6 +296,8 @@ func dynIs[T any](x any) bool { panic(0) }
 func unboxed[T any](x any) T { panic(0) }
 func seqEq[T any](a, b []T) bool { panic(0) }
 func typeOK[T any](x T) bool { panic(0) }
+func unchangedExcept[T any](p *T, fields ...string) bool { panic(0) }
+func same[T any](a, b T) bool { panic(0) }
 func setEq[K comparable](a, b map[K]bool) bool { panic(0) }
 func ite[T any](c bool, a, b T) T { if c { return a }; return b }
 func allocated[T any](x T) bool { panic(0) }
